@@ -133,6 +133,32 @@ def run_bounded(chk):
                 break
         if len(samples) < 3:
             samples.append({"case": name, "n_points": len(pts), "orders_checked": len(orders)})
+    # the same object: every measure read twice, then again after each public move / resize / reorientation
+    from . import stale
+    from .common import real_coxeter
+    import numpy as np
+    cox = real_coxeter()
+    hfails = []
+
+    def measures(s):
+        out = {"volume": s.volume, "surface_area": s.surface_area, "centroid": np.asarray(s.centroid, float),
+               "inertia_tensor": np.asarray(s.inertia_tensor, float), "face_areas": np.sort(np.asarray(s.get_face_area(), float))}
+        again = np.asarray(s.inertia_tensor, float)          # a second read of the same member must agree with the first
+        out["inertia_tensor_read_twice"] = bool(np.allclose(again, out["inertia_tensor"], rtol=1e-12, atol=0))
+        return out
+    named = corpus.named_convex()
+    for nm in ("box", "frustum", "chiral5"):
+        P = np.asarray(named[nm], float) + np.array([10.0, -7.0, 4.0])
+        obj = cox.shapes.ConvexPolyhedron(P)
+        first = measures(obj)
+        if not first["inertia_tensor_read_twice"]:
+            hfails.append((f"history:{nm}:inertia_tensor_read_twice", {"points": P.tolist(), "note": "two consecutive reads differ"}))
+            continue
+        perm_checked += stale.read_mutate_read(obj, measures, f"history:ConvexPolyhedron:{nm}", hfails)
+    for nm, info in hfails[:3]:
+        n_bad += 1
+        chk.record(f"bounded:measures_exact[{nm}]", fkey, "bounded-fail", "fresh-construction", detail=str(info)[:400], model={},
+                   replay=lambda m, info=info, nm=nm: (True, {"case": nm, **info}), kind="bounded")
     if n_bad == 0:
         chk.record("bounded:measures_exact", fkey, "bounded-pass", "exact-oracle", kind="bounded",
                    detail=f"{len(cs)} vertex sets, {perm_checked} vertex orders")
@@ -141,7 +167,8 @@ def run_bounded(chk):
                   "== exact rational oracle (tolerance 1e-9 relative), independent of vertex order",
         "bound": "named solids x 4 rigid placements (offset up to ~10 diameters, exact rational rotations); random subsets of "
                  "{0,1,2}^3 in convex position with <=8 points; seeded points on ellipsoids (4..43 points; facets from Qhull, "
-                 "measures from exact formulas); 3 (quick) / 9 (thorough) vertex orders each, all permutations for <=5 points (thorough)",
+                 "measures from exact formulas); 3 (quick) / 9 (thorough) vertex orders each, all permutations for <=5 points (thorough); "
+                 "3 off-origin objects read twice, then moved / resized / reoriented through their public mutators and re-read against a fresh construction",
         "evaluations": perm_checked, "distinct_nontrivial": len(distinct),
         "rule": "distinct = different vertex sets after rounding to 1e-9; every case has >= 4 non-coplanar points",
         "samples": samples, "failures": n_bad, "exhaustive": False,
